@@ -462,6 +462,9 @@ MUTATIONS = collections.OrderedDict([
     ('activation', ('inplace', 'assign')),
 ])
 PICKLE_KINDS = ('el', 'ion', 'iso', 'isoion', 'struct')
+# mutations that can only be written against private fields of the atoms (mass and density are read-only
+# properties over _mass / _density / _abundance): optional, skipped on a tree that stores them otherwise
+PRIVATE_FIELD_MUTATIONS = (('mass', 'assign'), ('density', 'assign'))
 
 
 def apply_mutation(T, g, variant):
@@ -1129,6 +1132,11 @@ class Env(object):
                 self.violation('mutation-exception', 'c', T, g,
                                'mutation %s raised %s through the library: %s' % (':'.join(p), type(exc).__name__, str(exc)[:120]),
                                symptom='EXC:' + type(exc).__name__, traceback=text[-600:])
+            elif isinstance(exc, AttributeError) and (g, variant) in PRIVATE_FIELD_MUTATIONS:
+                # the mutation is written against a private field (_mass, _density, ...) that this tree does
+                # not have, and there is no public way to assign it: the event is skipped, not judged
+                self.counts['mutations_not_applicable'] += 1
+                self.counts['mutations_not_applicable.%s:%s' % (g, variant)] += 1
             else:
                 self.harness.append('mutation %s could not be applied (harness): %s' % (':'.join(p), text[-400:]))
         self.mutated[T].add(g)
